@@ -479,6 +479,10 @@ def run(ctx: Ctx) -> int:
                                               ["summ", "link", "pages", "inv"])
         one = outdircheck.run(ctx, 3, [["a"], ["a", "b"], ["index"]], ["full", "summary", "subject"], ["link", "pages"])
     ctx.extra["outdir"] = {k: v + one[k] for k, v in ctx.extra["outdir"].items()}
+    # what is asked for: neither option (pages and inventory), --make-html (the same: it implies the inventory), --make-intersphinx alone
+    one = outdircheck.run(ctx, 2, [["a"], ["a", "b"]], ["full", "summary"], ["pages"] if ctx.quick else ["link", "pages", "inv"], negative=False,
+                          outputs=["both", "html", "inv"])
+    ctx.extra["outdir"] = {k: v + one[k] for k, v in ctx.extra["outdir"].items()}
     # ---- negative control: a run cut before the inventory must be rejected by TLC
     good = next((t for t in traces if t["ev"] and t["ev"][-1]["k"] == "exit"), None)
     if good is None:
